@@ -19,7 +19,9 @@ RULE = ('family A: random crystals (all lattice systems, 1-3 species, random ori
         'lengths; family C: directed inputs -- two atoms placed so that a jump shorter than the cut-off has a lattice index beyond '
         'round(cutoff/|a|)+1 whenever geometry allows. Non-trivial = network with at least one jump; distinct = (family, kind, '
         'atoms per species, species, number of jumps, obstruction form)')
-ASSUMPTIONS = ['jump vectors compared to 1e-7 (positions are O(1)); lattice indices exactly',
+ASSUMPTIONS = ['crystals whose independent group changes when its tolerance goes from 1e-6 to 1e-9 are skipped (atoms symmetric only to '
+               'within that window; the repository threshold is 1e-8)',
+               'jump vectors compared to 1e-7 (positions are O(1)); lattice indices exactly',
                'cut-offs keep 1e-4 clear of every interatomic distance; obstruction inputs whose decision falls inside the '
                "code's own floating-point window (projection within 1e-7 dx^2 of a segment end, squared distance within "
                '2e-8+2e-5 closest^2 above the limit; the code uses numpy.isclose: 1e-8+1e-5 closest^2) are redrawn or skipped (counted as ambiguous_skipped)',
@@ -234,7 +236,10 @@ def run_A(case, mon, rng):
         dim = spec['dim']
         Q = pg.random_rotation(rng, dim) if rng.uniform() < 0.4 else np.eye(dim)
         crys = crystal.Crystal(Q @ np.array(spec['latt']), [[np.array(u) for u in lst] for lst in spec['basis']])
-        refG = geom.full_group(crys.lattice, crys.basis)
+        refG, degenerate = pg.reference_group(crys.lattice, crys.basis, len(crys.G))
+        if degenerate:
+            mon.count('threshold_degenerate_crystal_skipped')
+            continue
         chem = int(rng.integers(crys.Nchem))
         amin = np.sqrt(min(np.diag(crys.metric)))
         cutoff, n = pick_cutoff(crys.lattice, crys.basis[chem], float(rng.uniform(0.7, 1.7)) * amin, 260)
@@ -265,7 +270,10 @@ def run_B(case, mon, rng):
         nchem = 1 if nat == 1 else int(rng.choice([1, 2]))
         basis = [pos] if nchem == 1 else [pos[:-1], pos[-1:]]
         crys = crystal.Crystal(latt, [[np.array(u) for u in l] for l in basis])
-        refG = geom.full_group(crys.lattice, crys.basis)
+        refG, degenerate = pg.reference_group(crys.lattice, crys.basis, len(crys.G))
+        if degenerate:
+            mon.count('threshold_degenerate_crystal_skipped')
+            continue
         chem = 0
         amin = np.sqrt(min(np.diag(crys.metric)))
         factor = float(rng.uniform(2., 4.5) if dim == 3 else rng.uniform(2., 9.))
@@ -338,7 +346,10 @@ def run_C(case, mon, rng):
         if n > case['maxjumps']:
             mon.count('directed_too_many_jumps')
             continue
-        refG = geom.full_group(crys.lattice, crys.basis)
+        refG, degenerate = pg.reference_group(crys.lattice, crys.basis, len(crys.G))
+        if degenerate:
+            mon.count('threshold_degenerate_crystal_skipped')
+            continue
         desc = {'kind': 'directed ' + kind, 'lattice': crys.lattice, 'basis': crys.basis, 'axis': d, 'hashseed': case.get('hashseed')}
         if sample is None: sample = dict(desc, chem=0, cutoff=cutoff)
         before = mon.obs.get('networks_with_jump_beyond_code_range', 0)
